@@ -46,7 +46,7 @@ def leaf_values(info, rng, dim, zero, use_mag):
             pass
     for p in P.call_parameters[2:]:
         pars[p.name] = float(dflt.get(p.name, p.default))
-    pd = sorted(P.pd_1d) if dim == "1d" else sorted(p.name for p in P.call_parameters if p.polydisperse)
+    pd = sorted(p.name for p in P.call_parameters if p.polydisperse and p.type not in ("orientation", "magnetic")) if dim == "1d" else sorted(p.name for p in P.call_parameters if p.polydisperse)
     rng.shuffle(pd)
     # components with vector parameters: prefer dispersity on a later vector element
     vec = [nm for nm in pd if any(q.length > 1 and nm.startswith(q.id) and nm[len(q.id):].isdigit()
